@@ -50,3 +50,35 @@ Proof.
   destruct k as [[[c nw] sched] g]. cbn in *. destruct Hks as [Hn Hg]. unfold single_process.
   rewrite Hn. apply zrange_shift. intros i Hi. apply Hg. lia.
 Qed.
+
+(* ---------- layout independence: 2-D (row-major reshaped) inputs ---------- *)
+(* Proj_MP / cKDTree_MP flatten their array arguments in C (row-major, logical index) order, schedule the flat rows and
+   reshape the flat result in C order.  [flat_C cols a] is the flattened view of the logical array a. *)
+Definition flat_C {V} (cols : Z) (a : Z -> Z -> V) (k : Z) : V := a (k / cols) (k mod cols).
+(* flattening a column-major (Fortran) array in MEMORY order instead (ravel(order='K')) *)
+Definition flat_F {V} (rows : Z) (a : Z -> Z -> V) (k : Z) : V := a (k mod rows) (k / rows).
+
+Lemma single_process_nth {V} (f : Z -> V) d n k : 0 <= k < n -> nth (Z.to_nat k) (single_process f n) d = f k.
+Proof.
+  intros H. unfold single_process.
+  rewrite (nth_indep _ d (f 0)) by (rewrite map_length, zrange_length; lia).
+  rewrite map_nth, zrange_nth by lia. f_equal. lia.
+Qed.
+
+(* element (r, c0) of the reshaped multi-process result depends only on the VALUES of the inputs at (r, c0) *)
+Lemma reshaped_result {V W} (g : V -> V -> W) (a1 a2 : Z -> Z -> V) d rows cols c nw sched :
+  wf c -> (1 <= nw)%nat -> workers_below nw sched -> all_done nw (run c sched) ->
+  0 < cols -> n c = rows * cols ->
+  forall r c0, 0 <= r < rows -> 0 <= c0 < cols ->
+  nth (Z.to_nat (r * cols + c0))
+      (result_array (fun k => g (flat_C cols a1 k) (flat_C cols a2 k)) d (n c) (wdone (run c sched))) d
+  = g (a1 r c0) (a2 r c0).
+Proof.
+  intros Hwf Hnw Hb Hd Hc Hn r c0 Hr Hc0.
+  rewrite (mp_equals_sp _ d c nw sched Hwf Hnw Hb Hd).
+  rewrite single_process_nth by nia. unfold flat_C.
+  replace ((r * cols + c0) / cols) with r by (rewrite Z.div_add_l by lia; rewrite (Z.div_small c0 cols) by lia; lia).
+  replace ((r * cols + c0) mod cols) with c0
+    by (rewrite Z.add_comm, Z.mod_add by lia; rewrite Z.mod_small by lia; reflexivity).
+  reflexivity.
+Qed.
